@@ -67,7 +67,14 @@ def run(ctx):
         for _ in range(10 if not thorough else 150):
             urls = rng.sample(HOSTS[b'example.com'], rng.randrange(1, 4)) + rng.sample(HOSTS[b'other.example'], rng.randrange(0, 3)) + ([b'/relative'] if rng.random() < 0.2 else [])
             rng.shuffle(urls)
-            exs = [exch(u, 200, [(b'Content-Type', [b'text/plain'])] + ([(b'X-K', [b'v'])] if rng.random() < 0.5 else []), rbytes(rng, rng.choice([0, 1, 16, 17, 100]))) for u in urls]
+            exs = []
+            for u in urls:
+                body = rbytes(rng, rng.choice([0, 1, 16, 17, 100]))
+                hs_ = [(b'Content-Type', [b'text/plain'])] + ([(b'X-K', [b'v'])] if rng.random() < 0.5 else [])
+                # header fields that describe the body as served (http.ServeFile always sets Content-Length): they go stale when the body
+                # is replaced by its integrity encoding, and must not stop the signed bundle from being read back
+                if len(exs) % 2 == 0: hs_ += [(b'Content-Length', [str(len(body)).encode()])] + ([(b'Etag', [b'"abc"']), (b'Accept-Ranges', [b'bytes'])] if len(exs) % 4 == 0 else [])
+                exs.append(exch(u, 200, hs_, body))
             bundles.append(bundle(ver, urls[0] if ver == 'b1' else None, None, None, exs))
     # signer sequences
     seqs = []
